@@ -12,6 +12,7 @@ pub mod c04;
 pub mod c05;
 pub mod c11;
 pub mod c12;
+pub mod c13;
 pub mod c14;
 pub mod c16;
 pub mod c18;
@@ -35,6 +36,7 @@ pub fn worker(prop: &str, case: &Value) -> Value {
         "C05" => c05::worker(case),
         "C11" => c11::worker(case),
         "C12" => c12::worker(case),
+        "C13" => c13::worker(case),
         "C14" => c14::worker(case),
         "C16" => c16::worker(case),
         "C18" => c18::worker(case),
@@ -60,6 +62,7 @@ pub fn drive(prop: &str, tier: &str) -> i32 {
         "C05" => c05::drive(tier),
         "C11" => c11::drive(tier),
         "C12" => c12::drive(tier),
+        "C13" => c13::drive(tier),
         "C14" => c14::drive(tier),
         "C16" => c16::drive(tier),
         "C18" => c18::drive(tier),
